@@ -24,6 +24,8 @@ CheckStep(e, want) ==
   ELSE IF ~SameList(e.dump, Dump(e.got)) THEN "dump"
   ELSE IF e.coordsct # e.got.ct \/ ~SameLine(e.coords, AllVerts(e.got)) THEN "dump-coordinates"
   ELSE IF \E j \in 1..Len(e.xyops) : e.xyops[j] # "XY" THEN "xy-only-operation-returned-z-or-m"
+  ELSE IF e.summary # Summary(e.got) \/ e.str # e.summary THEN "summary"
+  ELSE IF e.nrings # NumRingsOf(e.got) \/ e.ntotal # NumTotal(e.got) THEN "counts"
   ELSE "ok"
 
 Init == h \in 1..Len(Trace) /\ i = 1 /\ cur = Trace[h].start
